@@ -71,6 +71,9 @@ class C14(Check):
                     for container in ("tuple", "object"):
                         yield {"algo": algo, "shape": list(shape), "family": group["family"], "rank": rank, "weights": "none", "fixed": fixed,
                                "container": container, "K": K, "seed": seed}
+                for fixed in ([], [0], [1]):
+                    yield {"algo": algo, "shape": list(shape), "family": group["family"], "rank": rank, "weights": "none", "fixed": fixed,
+                           "container": "tuple", "K": K, "seed": seed, "tenalg": "einsum"}
             return
         if algo == "parafac":
             # long runs with line search (it starts at sweep 7): fixed factors must stay bit-identical through accepted jumps too
@@ -79,6 +82,12 @@ class C14(Check):
                     for fixed in ([0], [1], [0, 1], [1, 0]):
                         yield {"algo": algo, "shape": list(shape), "family": group["family"], "rank": rank, "weights": w, "fixed": fixed,
                                "container": "tuple", "K": 9 if tier == "quick" else 12, "seed": seed, "opts": {"linesearch": True}}
+        for rank in ranks:
+            for (w, fixed) in (("positive", []), ("positive", [0]), ("none", [1])):
+                if algo == "parafac2" and fixed:
+                    continue
+                yield {"algo": algo, "shape": list(shape), "family": group["family"], "rank": rank, "weights": w, "fixed": fixed,
+                       "container": "tuple", "K": K, "seed": seed, "tenalg": "einsum"}
         for rank in ranks:
             wlist = [w for w in WEIGHTS if not (algo in NN and w in ("negative", "mixed"))]
             for w in wlist:
@@ -169,6 +178,12 @@ class C14(Check):
 
         # ---------------- runner
         def go(k, variant=0):
+            if case.get("tenalg"):  # configuration axis: the second tensor-algebra implementation
+                with tl.tenalg.backend_context(case["tenalg"], local_threadsafe=True):
+                    return _go(k, variant)
+            return _go(k, variant)
+
+        def _go(k, variant=0):
             init = make_init(variant)
             np.random.seed(20260927)
             try:
